@@ -1,6 +1,7 @@
 package main
 
 import (
+	"bytes"
 	"fmt"
 	"strings"
 
@@ -438,6 +439,7 @@ func init() {
 	suites["s-suffix"] = xSuite(genSuffixScript, []string{"s.sort", "s.lcp", "s.segments.checked"})
 	suites["c-config"] = xSuite(genCfgScript, []string{"c.marshal", "c.newparser.accepted", "c.json.accepted", "c.defaults"})
 	suites["s-budget"] = xSuite(genBudgetScript, []string{"s.budget.fail"})
+	suites["s-large"] = xSuite(genSortLarge, []string{"s.sort.large"})
 	suites["u-units"] = xSuite(genUnitScript, []string{"u.ulcp", "u.ulcs", "u.bitset.clear"})
 	// exhaustive: script k of shard s (8 shards) handles string number k*8+s
 	suites["s-exhaustive"] = func(r *rng, id string, cnt counters, emit func(line, out string)) ([]finding, bool) {
@@ -446,4 +448,126 @@ func init() {
 		e := genSuffixExhaustive(id, k*8+s, cnt, emit)
 		return e.finds, true
 	}
+}
+
+// checkSALinear is the linear-time suffix array check (the Go twin of the Lean-verified
+// `checkSA`): sa is a permutation of 0..n-1, first bytes are non-decreasing, and where the
+// first bytes agree the ranks of the suffixes one position later are increasing.
+func checkSALinear(t []byte, sa []int32) string {
+	n := len(t)
+	if len(sa) != n {
+		return "length"
+	}
+	rank := make([]int32, n+1)
+	for i := range rank {
+		rank[i] = -2
+	}
+	for i, p := range sa {
+		if p < 0 || int(p) >= n || rank[p] != -2 {
+			return fmt.Sprintf("not a permutation at rank %d", i)
+		}
+		rank[p] = int32(i)
+	}
+	rank[n] = -1
+	for i := 1; i < n; i++ {
+		a, b := sa[i-1], sa[i]
+		if t[a] > t[b] {
+			return fmt.Sprintf("first bytes out of order at rank %d", i)
+		}
+		if t[a] == t[b] && rank[a+1] >= rank[b+1] {
+			return fmt.Sprintf("suffixes out of order at rank %d", i)
+		}
+	}
+	return ""
+}
+
+// genSortLarge: suffix.Sort on texts of 12 KiB … 200 KiB (large buckets of the substring sort, deep
+// recursion of the rank sort), checked by the linear suffix-array check; LCP on the low-repetition
+// families. Oracle only: the list-based specification of the model is far too slow at this size.
+func genSortLarge(r *rng, id string, cnt counters, emit func(line, out string)) *xExec {
+	e := &xExec{cnt: cnt}
+	emit(fmt.Sprintf("S %s X", id), fmt.Sprintf("S %s ok", id))
+	n := r.pick(r.rangeIn(12000, 40000), r.rangeIn(40000, 120000), r.rangeIn(100000, 200000), 4104*3, 8208*3)
+	t := make([]byte, n)
+	fam := r.intn(7)
+	lowRep := false
+	switch fam {
+	case 0, 1: // random over a small alphabet
+		al := r.rangeIn(2, 4)
+		for i := range t {
+			t[i] = byte('a' + r.intn(al))
+		}
+		lowRep = true
+	case 2: // X X tail
+		h := n / 2
+		for i := 0; i < h; i++ {
+			t[i] = byte('a' + r.intn(3))
+		}
+		copy(t[h:], t[:h])
+		for i := 2 * h; i < n; i++ {
+			t[i] = byte('a' + r.intn(3))
+		}
+	case 3: // period with defects
+		p := r.rangeIn(3, 3000)
+		for i := range t {
+			if i < p {
+				t[i] = byte('a' + r.intn(4))
+			} else {
+				t[i] = t[i-p]
+			}
+		}
+		for k := r.intn(12); k > 0; k-- {
+			t[r.intn(n)] ^= byte(1 + r.intn(3))
+		}
+	case 4: // long runs of two letters
+		c := byte('a')
+		for i := 0; i < n; {
+			l := r.rangeIn(1, 600)
+			for j := 0; j < l && i < n; j++ {
+				t[i] = c
+				i++
+			}
+			c ^= 3
+		}
+	case 5: // Fibonacci word
+		a, b := []byte("a"), []byte("ab")
+		for len(b) < n {
+			a, b = b, append(append([]byte{}, b...), a...)
+		}
+		copy(t, b)
+	default: // all byte values, low entropy mix
+		for i := range t {
+			t[i] = byte(r.intn(256) >> uint(r.intn(8)))
+		}
+		lowRep = true
+	}
+	t0 := append([]byte{}, t...)
+	sa := make([]int32, n)
+	func() {
+		defer func() {
+			if rec := recover(); rec != nil {
+				e.find("C09", "Sort panics", "Sort", fmt.Sprintf("family=%d n=%d: %v", fam, n, rec))
+			}
+		}()
+		suffix.Sort(t, sa)
+		if !bytes.Equal(t, t0) {
+			e.find("C09", "Sort modifies t", "Sort", "")
+		}
+		if why := checkSALinear(t, sa); why != "" {
+			e.find("C09", "Sort result is not the suffix array", "Sort", fmt.Sprintf("family=%d n=%d seedtext=%x…: %s", fam, n, t[:min(24, n)], why))
+		}
+		if lowRep {
+			lcp := make([]int32, n)
+			suffix.LCP(t, sa, nil, lcp)
+			for i := 1; i < n; i += 1 + r.intn(3) {
+				if int(lcp[i]) != naiveLCP(t[sa[i-1]:], t[sa[i]:]) {
+					e.find("C09", "LCP wrong", "LCP", fmt.Sprintf("family=%d n=%d rank=%d", fam, n, i))
+					break
+				}
+			}
+		}
+	}()
+	cnt.inc("s.sort.large")
+	emit("E", "E")
+	return e
 }
